@@ -509,6 +509,10 @@ def perturbations(d):
         w(line=l)
     for r in _perturb_text(d["raw"]):
         w(raw=r)
+    # a block built by hand has start_line / raw None: it differs from a parsed one with the same content
+    # (None is rendered as line -999 / raw "" in the shared data model; the base blocks have neither)
+    w(line=None)
+    w(raw=None)
     for m in _perturb_md(d["md"]):
         w(md=m)
     c = d["c"]
